@@ -128,7 +128,9 @@ fn search_cases(out: &mut Out, t: &Tagged, hist: &[Board], kvals: &[u64]) {
         let mut res: Option<(String, String)> = None;
         out.case(t.tag, true, format!("search {p} hist={h} k={k} prev=65535"), || {
             let o = run_search(&b, hist, k);
-            let first_pass = o.max_depth != u16::MAX;
+            // the first deepening pass finished before the limit if a completed pass was recorded, or if the
+            // timeout never reported expiry at all (then every pass the search ran was complete)
+            let first_pass = o.max_depth != u16::MAX || o.polls <= k;
             res = Some((
                 format!("{},{},{}", match o.mv { Some(m) => mv_str(m), None => "none".into() }, show_score(o.score), first_pass),
                 show_out(&o),
